@@ -28,7 +28,7 @@ CORE_KINDS = [
     "stored-field", "stored-field-self", "cond-alias", "recursion", "mutual-recursion", "recursive-method",
 ]
 EXT_KINDS = [
-    "self-dispatch-subclass", "diamond-init", "super-init", "super-method", "explicit-base-init", "closure-captured", "default-param", "staticmethod",
+    "self-dispatch-subclass", "diamond-init", "diamond-class-attr", "super-init", "super-method", "explicit-base-init", "closure-captured", "default-param", "staticmethod",
     "classmethod", "lambda", "class-attr-method", "diamond-method",
 ]
 ALL_KINDS = CORE_KINDS + EXT_KINDS
@@ -477,7 +477,20 @@ class Gen:
             out.append(Line(""))
         return e
 
-    def def_class(self, mod):
+    def def_diamond(self, mod):
+        """A; B(A); C(A) overriding; D(B, C): the C3 order D B C A differs from a depth-first lookup"""
+        if self.avoided("diamond-method"):
+            return None
+        ch = self.ch
+        a = self.def_class(mod, force={"bases": [], "names": ch.pick([["ma"], ["ma", "mb"], ["mb", "mc"]]),
+                                       "init": ch.pick(["none", "plain"])})
+        b = self.def_class(mod, force={"bases": [a], "names": ch.pick([[], [], ["md"]]), "init": "none"})
+        over = ch.pick(sorted(a.methods))
+        c = self.def_class(mod, force={"bases": [a], "names": [over], "init": ch.pick(["none", "none", "plain"])})
+        d = self.def_class(mod, force={"bases": [b, c], "names": ch.pick([[], [], ["md"]]), "init": "none"})
+        return d
+
+    def def_class(self, mod, force=None):
         name = mod.fresh("K").replace("K", "K") + mod.name[-1].upper()
         idx_before = len(self.ents)
         tmp = Scope(self, mod, idx_before, 1, mod.body, None)
@@ -486,6 +499,9 @@ class Gen:
         base_exprs = []
         cands = self.visible(tmp, "class")
         shape = self.ch.pick(["none", "single", "single", "single", "single", "diamond"]) if cands else "none"
+        if force is not None:
+            shape = "forced"
+            bases = list(force["bases"])
         if shape == "diamond" and self.avoided("diamond-method"):
             shape = "single"
         if shape == "single" and cands:
@@ -529,7 +545,11 @@ class Gen:
         if len(bases) == 2:
             options = ["none"]
         choice = self.ch.pick(options)
+        if force is not None:
+            choice = force["init"]
         if choice == "super" and self.avoided("super-init"):
+            choice = "none"
+        if choice == "explicit" and self.diamond_differs(bases[0], "__init__"):
             choice = "none"
         if choice == "explicit" and self.avoided("explicit-base-init"):
             choice = "none"
@@ -565,6 +585,8 @@ class Gen:
             n = self.ch.pick(pool)
             if n not in names:
                 names.append(n)
+        if force is not None:
+            names = list(force["names"])
         names.sort()
         if bases and names and self.self_dispatch_changes(bases, names) and self.avoided("self-dispatch-subclass"):
             blocked = self.self_called_names(bases)
@@ -688,14 +710,14 @@ class Gen:
             kind = "classmethod"
         elif flav == "rec":
             kind = "method" if definer is cls else "inherited-method"
-        elif cls.diamond and definer is not cls and self.diamond_differs(cls, n):
-            kind = "diamond-method"
         elif definer is cls:
             kind = "overriding-method" if cnt > 1 else "method"
         else:
             kind = "inherited-method"
         if recv_kind is not None and kind in ("method", "overriding-method", "inherited-method"):
             kind = recv_kind
+        if self.diamond_differs(cls, n):
+            kind = "diamond-method"
         via = self.class_via(cls, via)
         if self.avoided(kind, via):
             return False
@@ -823,7 +845,10 @@ class Gen:
                     return False
                 cls = ch.pick(cs)
                 o = self.construct(sc, cls)
-                names = [n for n in self.method_names(cls) if n in METHOD_NAMES and self.find_method(cls, n)[0].methods[n]["flavour"] == "plain"]
+                names = [n for n in self.method_names(cls) if n in METHOD_NAMES and self.find_method(cls, n)[0].methods[n]["flavour"] == "plain"
+                         and not self.diamond_differs(cls, n)]
+                if not names:
+                    return True
                 fexpr = "%s.%s" % (o, ch.pick(names))
             else:
                 fs = self.visible(sc, "func")
@@ -933,7 +958,8 @@ class Gen:
             u = ch.pick(us)
             # any visible class that is root or a subclass of root
             cs = self.visible(sc, "class", lambda c: u.root in self.mro(c) and self.init_info(c)[1] in (None, "plain", "super", "explicit")
-                              and self.class_via(c, "local") == self.class_via(u.root, "local"))
+                              and self.class_via(c, "local") == self.class_via(u.root, "local")
+                              and not self.diamond_differs(c, u.mname))
             if not cs:
                 return False
             cls = ch.pick(cs)
@@ -981,9 +1007,10 @@ class Gen:
             cexpr, cvia = self.ref(sc, cls)
             n = ch.pick(names)
             cvia = self.class_via(cls, cvia)
-            if self.avoided("class-attr-method", cvia):
+            ckind = "diamond-class-attr" if self.diamond_differs(cls, n) else "class-attr-method"
+            if self.avoided(ckind, cvia):
                 return False
-            self.call_func_line(sc, "%s.%s" % (cexpr, n), "class-attr-method", cvia, a="%s, %s" % (o, self.arg(sc)))
+            self.call_func_line(sc, "%s.%s" % (cexpr, n), ckind, cvia, a="%s, %s" % (o, self.arg(sc)))
             return True
         if which == "lambda":
             if self.avoided("lambda"):
@@ -1087,6 +1114,8 @@ class Gen:
                     self.def_factory(mod)
                 elif t == "class":
                     self.def_class(mod)
+                elif t == "diamond":
+                    self.def_diamond(mod)
                 elif t == "rec":
                     self.def_rec(mod)
                 elif t == "recv":
@@ -1145,12 +1174,12 @@ class Gen:
 THEMES = {
     "mixed": (
         ["func", "func", "func", "ho", "ho", "factory", "factory", "class", "class", "class", "class", "rec", "recv",
-         "objfactory"],
+         "objfactory", "diamond"],
         ["func", "func", "func", "method", "method", "method", "callback", "callback", "callback", "factory",
          "factory", "alias", "list", "dict", "field", "cbclass", "recv", "objfactory", "rec", "rec", "classattr",
          "lambda", "nested", "cond-alias", "wrap-if", "wrap-loop", "wrap-try"]),
     "classes": (
-        ["func", "class", "class", "class", "class", "class", "class", "recv", "recv", "objfactory", "ho", "rec"],
+        ["func", "class", "class", "class", "class", "class", "diamond", "recv", "recv", "objfactory", "ho", "rec"],
         ["func", "method", "method", "method", "method", "method", "method", "recv", "recv", "objfactory",
          "objfactory", "cbclass", "cbclass", "classattr", "callback", "field", "wrap-if", "wrap-loop", "wrap-try"]),
     "values": (
